@@ -5,7 +5,7 @@
 /// Socket layer: mapped addresses, relay receive path, transports sender.
 pub mod socket {
     pub use crate::socket::{
-        transports::{Addr, FourTuple},
+        transports::{Addr, FourTuple, Transmit, custom::CustomSender},
         verif::*,
     };
 }
